@@ -94,7 +94,7 @@ def _stepcount(repo, col, fi, ex, R="R-C07-stepcount"):
     if call is None:
         raise AnalysisError("integrate no longer calls nested_checkpoint_scan")
     t = ex.term(call)
-    length = t.kw.get("length") or (t.args[3] if len(t.args) > 3 else None)
+    length = idx.call_arg(repo, fi.file, t, "length")
     if length is None:
         col.unk(R, fi, "length passed to the scan", "not found", node=call)
         return
@@ -202,8 +202,7 @@ def _single(repo, col, fi, ex):
         raise AnalysisError("integrate no longer calls build_init_and_step_fn")
     bt = ex.term(bc)
     okb = bt.args and bt.args[0].op == "param" and bt.args[0].name == "module" and \
-        bt.kw.get("voltage_solver") is not None and bt.kw["voltage_solver"].op == "param" and bt.kw["voltage_solver"].name == "voltage_solver" \
-        and bt.kw.get("solver") is not None and bt.kw["solver"].op == "param" and bt.kw["solver"].name == "solver"
+        all((lambda a_: a_ is not None and a_.op == "param" and a_.name == nm_)(idx.call_arg(repo, fi.file, bt, nm_)) for nm_ in ("voltage_solver", "solver"))
     col.check(okb, R, fi, "integrate builds init_fn/step_fn with its own solver settings", "",
               f"called as {bt.short(120)}", node=bc)
     def built(t_, k):
